@@ -14,7 +14,8 @@ import re
 from .. import refdbus as R
 from .. import busbox as B
 from .. import explore
-from ..engine import Violation
+from ..engine import Violation, Pool, crash_violation, worker_bus
+from ..vbox import HarnessDied
 from ..session import BusSession
 from ..registry import claim
 
@@ -186,6 +187,10 @@ class Session(BusSession):
                         out.append(Violation('undeliverable-fd-call-error', target, '%s: undeliverable call produced %d errors at its sender' % (desc, len(errs)), None))
                 mo = re.search(r'conn @F [^|]*pending_fds=(\d+)', self.impl_key())
                 self.surplus['F'] = int(mo.group(1)) if mo else 0       # the bus's own count; the process-wide invariant below checks it
+                if self.surplus['F'] > LIMITS['max_message_unix_fds']:
+                    # descriptors no message has claimed are held "within its per-connection limit": the loader's array has
+                    # room for max_message_unix_fds; a connection that accumulates more must be dropped, not served
+                    out.append(Violation('surplus-over-limit', 'pending-fds', '%s: the bus holds %d unclaimed descriptors for a live connection (limit %d)' % (desc, self.surplus['F'], LIMITS['max_message_unix_fds']), None))
                 if self.surplus['F'] == 0:
                     self.fdq = []
                     self.dirty = False
@@ -237,14 +242,86 @@ class Session(BusSession):
         return re.sub(r'serial=\d+', 'serial=*', self.impl_key()) + '#' + repr((self.closed_by_harness, self.closed_by_bus, sorted(self.surplus.items()), self.fdq, sorted(l for l in ('F', 'G', 'P') if self.is_open(l))))
 
 
+def backpressure_scenarios(tier):
+    for hdr in (100, 40000, 150000):
+        for nf in (1, 2):
+            for k in ((2, 3) if tier == 'quick' else (2, 3, 5, 8)):
+                for stalled in (0, 1):
+                    yield {'backpressure': [hdr, nf, k, stalled]}
+
+
+def task_backpressure(scns):
+    """F sends k descriptor-carrying messages with a header of the given size to G, which either reads normally or
+    does not read until all are written (so that the bus's writes to G are cut short, possibly inside a header)."""
+    out = []
+    n = 0
+    for scn in scns:
+        hdr, nf, k, stalled = scn['backpressure']
+        try:
+            s_ = Session({'small': True})
+            cg = s_.slots['G']
+            if stalled:
+                s_.bus.h.cmd('NODRAIN %d 1' % cg)
+            want = []
+            c = s_.slots['F']
+            for i in range(k):
+                ser = s_.bus.next_serial(c)
+                fds = [(i + j) % 4 for j in range(nf)]
+                fields = [(R.F_PATH, (b'o', b'/' + b'p' * hdr)), (R.F_INTERFACE, (b's', b'f.i')), (R.F_MEMBER, (b's', b'Take')), (R.F_DESTINATION, (b's', G_NAME)),
+                          (R.F_UNIX_FDS, (b'u', nf))]
+                m = R.Msg(R.MT_CALL, 1, ser, fields, [R.S('B%d' % i)] + [R.H(j) for j in range(nf)])
+                s_.bus.h.cmd('SEND %d %s %s' % (c, R.encode_message(m).hex(), ','.join(map(str, fds))))
+                s_.bus.pump()
+                want += [s_.fdid[x] for x in fds]
+            got_fds, got_msgs = [], 0
+            if stalled:
+                s_.bus.h.cmd('NODRAIN %d 0' % cg)
+            for _ in range(200):
+                s_.bus.pump()
+                o = s_.bus.recvall()
+                if not o:
+                    break
+                for cc, rv in o.items():
+                    if cc == cg:
+                        got_fds += rv.fds
+                        got_msgs += sum(1 for m_, _ in rv.msgs if m_.member == b'Take')
+            n += 1
+            if got_msgs != k or got_fds != want:
+                clause = 'fd-identity' if got_msgs == k else 'fd-message-not-delivered'
+                out.append(Violation(clause, 'backpressure', '%d messages with %d descriptors each and a %d-byte path to a %s recipient: it received %d messages and descriptors %r, expected %r' %
+                                     (k, nf, hdr, 'stalled' if stalled else 'reading', got_msgs, got_fds, want), scn))
+            else:
+                have, base = s_.bus.fdcount(), s_.baseline
+                if have != base:
+                    out.append(Violation('fd-leak', 'backpressure', 'after delivering everything the bus process has %d descriptors open, baseline %d' % (have, base), scn))
+            s_.close()
+        except HarnessDied as e:
+            out.append(crash_violation(e, scn))
+            worker_bus().h.close()
+    return {'viol': [v.to_json() for v in out[:4]], 'n': n}
+
+
 def run(ctx):
     quick = ctx.tier == 'quick'
     depth = 3 if quick else 4
     st = explore.bfs(ctx, FACTORY, {'small': quick}, max_depth=depth, ops_chunk=10)
+    scns = list(backpressure_scenarios(ctx.tier))
+    pool = Pool()
+    nbp = 0
+    try:
+        for r in pool.imap(task_backpressure, [scns[i:i + 2] for i in range(0, len(scns), 2)]):
+            if '__crash__' in r:
+                ctx.add_violation(Violation('crash', r['__crash__'], r['stderr'], {'task': r['task']}))
+                continue
+            ctx.add_violations(r['viol'])
+            nbp += r['n']
+    finally:
+        pool.close()
+    ctx.hit('backpressure-scenarios', nbp)
     ctx.coverage.update({
         'states': st['states'], 'transitions': st['transitions'], 'traces_validated_against_impl': st['transitions'],
-        'completed_depth': st['completed_depth'], 'fixpoint': st['fixpoint'],
-        'bound': 'sender F, negotiated peer G, non-negotiated peer P; announced x attached in {0..3}^2%s, 5 targets, first-write/split attachment, disconnects, pending_fd_timeout; max_message_unix_fds=2; BFS depth %d' %
+        'completed_depth': st['completed_depth'], 'fixpoint': st['fixpoint'], 'backpressure_scenarios': nbp,
+        'bound': 'backpressure: 2, 3 (thorough also 5, 8) descriptor-carrying messages x path length {100, 40000, 150000} x {1,2} descriptors x recipient {reading, stalled until all are written}; sender F, negotiated peer G, non-negotiated peer P; announced x attached in {0..3}^2%s, 5 targets, first-write/split attachment, disconnects, pending_fd_timeout; max_message_unix_fds=2; BFS depth %d' %
                  (' (8 combinations)' if quick else '', depth),
     })
     ctx.assumptions = ['/proc/self/fd of the harness process counts the in-process bus\'s descriptors; the harness closes every descriptor it receives at once']
@@ -252,4 +329,7 @@ def run(ctx):
 
 
 def replay(case):
+    if 'backpressure' in case:
+        r = task_backpressure([case])
+        return [Violation.from_json(v) for v in r['viol']]
     return explore.replay_history(FACTORY, case['params'], case['history'])
